@@ -405,3 +405,24 @@ func posFor(p0 string, isString bool) string {
 	}
 	return p0
 }
+
+// judgeUnenc = SinksJsCases!PredictUnenc's verdict: a value without JSON encoding claims nothing about what arrives,
+// but its output must not end the script element / attribute, open a comment or leave a literal open.
+func judgeUnenc(p string, out []string) string {
+	d := posDefOf(p)
+	c := consState{j: jsTop}
+	for _, s := range out {
+		c, _, _ = consumeSym(d, c, s)
+	}
+	switch {
+	case isEnd(c.h):
+		return "StaysInScript"
+	case isEsc(c.h):
+		return "NoHtmlComment"
+	case c.j.m == "INTERP":
+		return "NoInterpolation"
+	case c.j.m != "top":
+		return "StaysInLiteral"
+	}
+	return ""
+}
